@@ -169,6 +169,8 @@ def b_python(c, r):
         runs = enc.get(t.name)
         if not runs:
             return False, "no runs for %s" % t.name
+        if not isinstance(runs, list) or not all(isinstance(x, dict) for x in runs):
+            return False, "no byte image of %s could be produced: %s" % (t.name, str(runs)[:300])
         for run in runs:
             ok, why = bytes_ok(t, run)
             if not ok:
